@@ -20,7 +20,9 @@
 (*    limit): accept <=> first value well-formed, value, bytes read =      *)
 (*    length of the first value, never more than the limit; alloc bounded  *)
 (*    by AllocBase + AllocPerByte * Len(in).                               *)
-(*  Encode: enc = TEnc(T, val); decoding enc gives NormV(T, val).          *)
+(*  Encode: enc = TEnc(T, val); decoding enc gives NormV(T, val).  Encode   *)
+(*  events with src *-seq directly follow a failed encode (EncodeFail) on   *)
+(*  the same goroutine.                                                     *)
 (***************************************************************************)
 EXTENDS Rlp, TLC, Json
 
@@ -108,9 +110,16 @@ JudgeEncode(e) ==
                   Tag(e.back.panic \/ e.back.ok, "Inv.Lossless.back-rejects:" \o e.t) \o
                   (IF e.back.ok THEN Tag(NormV(T, e.back.val) = NormV(T, e.val), "Inv.Lossless.back-value:" \o e.t) ELSE <<>>)))
 
+(* an encode of an unsupported value (negative integer in a container): it may fail, it must not
+   panic; what matters is the Encode event that follows it (same judgement as any other: the
+   encoding of a value is a function of the value, not of the encoder's history) *)
+JudgeEncodeFail(e) ==
+  Tag(~e.panic, "Inv.Total.panic:" \o e.t) \o Tag(~e.ok, "encodes-unsupported:" \o e.t)
+
 Judge(e) ==
   CASE e.event = "Decode" -> JudgeDecode(e)
     [] e.event = "Encode" -> JudgeEncode(e)
+    [] e.event = "EncodeFail" -> JudgeEncodeFail(e)
     [] OTHER -> <<"unknown-event">>
 
 TraceInit == l = 1 /\ bad = <<>>
